@@ -12,6 +12,7 @@ import itertools
 import json
 import os
 import random
+import re
 import shutil
 from collections import Counter
 from multiprocessing import Pool
@@ -32,7 +33,9 @@ TRUSTED = [
     "event_list, base, contexts and hed_strings are compared as SEQUENCES",
     "parsing/assembly (HedString, find_top_level_tags, TabularInput/Sidecar assembly, shrink_defs) and "
     "HedTag.value_as_default_unit are trusted to deliver the top-level groups and exact dyadic values the "
-    "generator wrote (they are other properties' subject; a Delay whose unit has no conversion to seconds is not "
+    "generator wrote (they are other properties' subject; the expected length of a value with a unit comes from the "
+    "conversion factors in the schema XML read with xml.etree (harness/schema_xml.py), independently of hed-python, and "
+    "only spellings whose float product is exactly the dyadic length are emitted; a Delay whose unit has no conversion to seconds is not "
     "shifted and is an item without delay in the model); HedTagManager.get_hed_objs is checked on the "
     "implementation side only",
 ]
@@ -47,6 +50,9 @@ ASSUMPTIONS = [
     "manager) are checked on the implementation against a freshly built manager (testing); the Coq side proves the "
     "history theorem for an object-store model of _filter_hed (Model/EventQueries.v) whose filtering of one item is an "
     "abstract function",
+    "a schema namespace ('ts:') and DataFrame row labels other than 0..n-1 are input dimensions of the harness only: "
+    "the model's items are spelling-free (C20_relabel_instance is one kernel-evaluated instance), so the same model "
+    "answer is required for them",
     "ghost rows (the second and later file rows of one time point, emptied by filter_series_by_onset) are not time "
     "points of the property: their event_list/base/hed_strings must be empty, their contexts are compared with the "
     "model only",
@@ -69,17 +75,103 @@ PLAIN = ["Red", "(Blue,Green)", "Sensory-event", "Def/Beta", "(Def/Alpha,Inset)"
 _state = {}
 
 
-def env():
-    """Schema and definitions; loaded once in the parent before the Pool forks."""
-    if not _state:
+def env(ns=""):
+    """Schema and definitions (plain, or the single schema loaded under a namespace such as 'ts:'); loaded once in
+    the parent before the Pool forks."""
+    if ns not in _state:
         import warnings
         warnings.filterwarnings("ignore")
         from hed.schema import load_schema
         from hed.models.definition_dict import DefinitionDict
-        sch = load_schema(os.path.join(C.REPO, "hed/schema/schema_data/HED8.3.0.xml"))
-        _state["schema"] = sch
-        _state["defs"] = DefinitionDict(DEF_TEXT, sch)
-    return _state
+        path = os.path.join(C.REPO, "hed/schema/schema_data/HED8.3.0.xml")
+        sch = load_schema(path, schema_namespace=ns) if ns else load_schema(path)
+        _state[ns] = {"schema": sch, "defs": DefinitionDict(ns_text(DEF_TEXT, ns), sch)}
+    return _state[ns]
+
+
+def ns_text(text, ns):
+    """Write every tag of a HED text with the schema namespace prefix."""
+    if not ns:
+        return text
+    return re.sub(r"[^(),]+", lambda m: m.group(0) if not m.group(0).strip() else
+                  m.group(0)[:len(m.group(0)) - len(m.group(0).lstrip())] + ns + m.group(0).lstrip(), text)
+
+
+def un_ns(x, ns):
+    """Observed text (or nested lists of texts) without the namespace prefix."""
+    if not ns or x is None:
+        return x
+    if isinstance(x, str):
+        return x.replace(ns, "")
+    if isinstance(x, list):
+        return [un_ns(y, ns) for y in x]
+    return x
+
+
+# ---------------------------------------------------------------- unit spellings from the schema file itself
+
+def _unit_table():
+    """{unit spelling: [(k, value text)]}: every way the bundled schema lets one write k/8 seconds, with the factor
+    taken from the schema XML (xml.etree, independent of hed-python): SI symbol modifiers (da h k M G T P E Z Y d c m
+    u n p f a z y) on 's', SI name modifiers on second/seconds in three letter cases, minute/hour/day and plurals.
+    Only spellings whose float product value*factor is exactly k/8 s, k < 2^44, are kept."""
+    from decimal import Decimal
+    from fractions import Fraction
+    from harness import schema_xml as X
+    sch = X.load_file(os.path.join(C.REPO, "hed/schema/schema_data/HED8.3.0.xml"))
+
+    def fac(attrs):
+        txt = attrs["conversionFactor"][0]
+        if "^" in txt:
+            b, e = txt.split("^")
+            return Fraction(b) ** int(e), float(b) ** int(e)
+        return Fraction(Decimal(txt)), float(txt)
+    units = {}     # spelling -> (exact factor, float factor)
+    tu = [uc for uc in sch["unit_classes"] if uc["name"] == "timeUnits"][0]
+    mods = [(m["name"], m["attrs"], fac(m["attrs"])) for m in sch["unit_modifiers"] if "conversionFactor" in m["attrs"]]
+    for u in tu["units"]:
+        if "conversionFactor" not in u["attrs"]:
+            continue
+        ue, uf = fac(u["attrs"])
+        sym = "unitSymbol" in u["attrs"]
+        forms = [u["name"]] if sym else [u["name"], u["name"] + "s"]
+        pre = [("", Fraction(1), 1.0)]
+        if "SIUnit" in u["attrs"]:
+            pre += [(n, e, f) for n, a, (e, f) in mods if ("SIUnitSymbolModifier" in a) == sym]
+        for pn, pe, pf in pre:
+            for form in forms:
+                sp = pn + form
+                for v in ([sp] if sym else [sp, sp.capitalize(), sp.upper()]):
+                    units[v] = (ue * pe, uf * pf)
+    targets = sorted(set(list(range(1, 65)) + [8 * 10 ** e for e in range(0, 13)] + [480 * j for j in (1, 2, 3, 60, 1440)]
+                         + [12 * 10 ** e for e in range(0, 12)]))
+    table = {}
+    for sp, (ex, fl) in units.items():
+        for k in targets:
+            v = Fraction(k, 8) / ex
+            d = v.denominator
+            while d % 2 == 0:
+                d //= 2
+            while d % 5 == 0:
+                d //= 5
+            if d != 1:
+                continue
+            txt = format(Decimal(v.numerator) / Decimal(v.denominator), "f")
+            if len(txt) > 32 or Decimal(txt) != Decimal(v.numerator) / Decimal(v.denominator):
+                continue
+            if Fraction(float(txt) * fl) == Fraction(k, 8):
+                table.setdefault(sp, []).append((k, txt))
+    return table
+
+
+UNIT_TABLE = None
+
+
+def unit_table():
+    global UNIT_TABLE
+    if UNIT_TABLE is None:
+        UNIT_TABLE = _unit_table()
+    return UNIT_TABLE
 
 
 # ---------------------------------------------------------------- rendering
@@ -105,7 +197,9 @@ def name_text(x, sp):
 
 def parts_of(it):
     """(parts of the top-level group or None for a bare plain annotation, index of the temporal tag)."""
-    dl, k, x, sp = it
+    dl, k, x, sp = it[:4]
+    extra = it[4] if len(it) > 4 else {}
+    dl_txt = (f"{extra['l'][1]} {extra['l'][0]}" if 'l' in extra else None)
     # a Delay whose unit has no conversion to seconds is NOT shifted: the group stays in its row (model: no delay)
     stuck = dl is None and (sp & 0xC0) == 0xC0
     stuck_txt = ["Delay/2 month", "Delay/1 year"][(sp >> 3) % 2]
@@ -114,7 +208,7 @@ def parts_of(it):
             return None, None
         txt = PLAIN[x % len(PLAIN)]
         inner = txt if (txt.startswith("(") and txt.count("(") == 1) else "(" + txt + ")"
-        return [stuck_txt if stuck else f"Delay/{time_text(dl, sp >> 3)}", inner], None
+        return [stuck_txt if stuck else f"Delay/{dl_txt or time_text(dl, sp >> 3)}", inner], None
     if k == "N":
         parts = ["Def/" + name_text(x, sp), "Onset"]
         if sp & 2:
@@ -122,9 +216,10 @@ def parts_of(it):
     elif k == "F":
         parts = ["Def/" + name_text(x, sp), "Offset"]
     else:
-        parts = [f"Duration/{time_text(x, sp)}", INNER[(sp >> 5) % len(INNER)]]
+        dur = f"{extra['d'][1]} {extra['d'][0]}" if "d" in extra else time_text(x, sp)
+        parts = [f"Duration/{dur}", INNER[(sp >> 5) % len(INNER)]]
     if dl is not None:
-        parts.append(f"Delay/{time_text(dl, sp >> 3)}")
+        parts.append(f"Delay/{dl_txt or time_text(dl, sp >> 3)}")
     elif stuck:
         parts.append(stuck_txt)
     r = (sp >> 2) % len(parts)
@@ -179,16 +274,20 @@ def build_input(case, tmpdir=None):
     import pandas as pd
     from hed.models.tabular_input import TabularInput
     from hed.models.sidecar import Sidecar
-    rows, mode = case["rows"], case.get("mode", 0)
+    rows, mode, ns = case["rows"], case.get("mode", 0), case.get("ns", "")
+    index = case.get("index")       # row labels of the DataFrame (None = the default 0..n-1)
+
+    def item_text_ns(it):
+        return ns_text(item_text(it), ns)
     onsets = [("n/a" if o is None else o / UNIT) for o, _ in rows]
     if any(o is None for o, _ in rows):
         onsets = [str(o) for o in onsets]
     if mode == 0:
-        cells = [", ".join(item_text(it) for it in its) if its else "n/a" for _, its in rows]
+        cells = [", ".join(item_text_ns(it) for it in its) if its else "n/a" for _, its in rows]
         if case.get("blank"):
             cells = ["" if c == "n/a" else c for c in cells]
-        df = pd.DataFrame({"onset": onsets, "HED": cells})
-        return TabularInput(df), env()["defs"]
+        df = pd.DataFrame({"onset": onsets, "HED": cells}, index=index)
+        return TabularInput(df), env(ns)["defs"]
     # sidecar: the last floor(n/2) items of each row come from a categorical column, the rest from the HED column
     # (the assembled cell is HED column first, then the sidecar columns)
     codes, code_col, hed_col = {}, [], []
@@ -196,14 +295,14 @@ def build_input(case, tmpdir=None):
         h = (len(its) + 1) // 2
         b, a = its[:h], its[h:]
         if a:
-            txt = ", ".join(item_text(it) for it in a)
+            txt = ", ".join(item_text_ns(it) for it in a)
             key = codes.setdefault(txt, f"c{len(codes)}")
             code_col.append(key)
         else:
             code_col.append("n/a")
-        hed_col.append(", ".join(item_text(it) for it in b) if b else "n/a")
-    sd = {"code": {"HED": {v: k for k, v in codes.items()} or {"c0": "Red"}},
-          "defs": {"HED": {"d1": DEF_TEXT}}}
+        hed_col.append(", ".join(item_text_ns(it) for it in b) if b else "n/a")
+    sd = {"code": {"HED": {v: k for k, v in codes.items()} or {"c0": ns_text("Red", ns)}},
+          "defs": {"HED": {"d1": ns_text(DEF_TEXT, ns)}}}
     sidecar = Sidecar(io.StringIO(json.dumps(sd)))
     if mode == 2 and tmpdir:
         p = os.path.join(tmpdir, f"ev_{os.getpid()}_{case.get('n', 0)}.tsv")
@@ -214,7 +313,7 @@ def build_input(case, tmpdir=None):
         ti = TabularInput(p, sidecar=sidecar)
         os.remove(p)
         return ti, None
-    df = pd.DataFrame({"onset": onsets, "code": code_col, "HED": hed_col})
+    df = pd.DataFrame({"onset": onsets, "code": code_col, "HED": hed_col}, index=index)
     return TabularInput(df, sidecar=sidecar), None
 
 
@@ -248,35 +347,36 @@ def impl_one(case):
     from hed.tools.analysis.hed_tag_manager import HedTagManager
     from hed.errors.exceptions import HedFileError
     r = {}
+    ns = case.get("ns", "")
     try:
         ti, defs = build_input(case, case.get("tmp"))
-        em = EventManager(ti, env()["schema"], extra_defs=defs)
+        em = EventManager(ti, env(ns)["schema"], extra_defs=defs)
     except HedFileError as e:
         return {"exn": "HedFileError", "code": str(e.code)}
     except Exception as e:  # noqa
         return {"exn": type(e).__name__, "msg": str(e)[:120]}
     try:
         r["onsets"] = [to_units(x) for x in em.onsets]
-        r["events"] = [[[e.start_index, e.end_index, to_units(e.start_time), to_units(e.end_time), str(e.contents)]
+        r["events"] = [[[e.start_index, e.end_index, to_units(e.start_time), to_units(e.end_time), un_ns(str(e.contents), ns)]
                         for e in evs] for evs in em.event_list]
-        r["base"] = list(em.base)
-        r["contexts"] = list(em.contexts)
-        r["hed"] = [str(h) for h in em.hed_strings]
+        r["base"] = un_ns(list(em.base), ns)
+        r["contexts"] = un_ns(list(em.contexts), ns)
+        r["hed"] = un_ns([str(h) for h in em.hed_strings], ns)
         tm = HedTagManager(em)
-        r["objs"] = [str(o) if o is not None else "" for o in tm.get_hed_objs(include_context=True)]
-        r["objs_nc"] = [str(o) if o is not None else "" for o in tm.get_hed_objs(include_context=False)]
+        r["objs"] = un_ns([str(o) if o is not None else "" for o in tm.get_hed_objs(include_context=True)], ns)
+        r["objs_nc"] = un_ns([str(o) if o is not None else "" for o in tm.get_hed_objs(include_context=False)], ns)
         qs = case.get("queries")
         if qs:
             # a consumer history on THIS manager; the reference answer of each distinct query comes from a
             # manager built afresh for the same file and asked nothing else
-            r["answers"] = [run_query(em, q) for q in qs]
-            r["after"] = run_query(em, ["S"])
+            r["answers"] = [un_ns(run_query(em, q), ns) for q in qs]
+            r["after"] = un_ns(run_query(em, ["S"]), ns)
             fresh = {}
             for q in qs:
                 key = json.dumps(q)
                 if key not in fresh:
                     ti2, defs2 = build_input(case, case.get("tmp"))
-                    fresh[key] = run_query(EventManager(ti2, env()["schema"], extra_defs=defs2), q)
+                    fresh[key] = un_ns(run_query(EventManager(ti2, env(ns)["schema"], extra_defs=defs2), q), ns)
             r["fresh"] = fresh
     except Exception as e:  # noqa
         return {"exn": "late:" + type(e).__name__, "msg": str(e)[:120]}
@@ -491,6 +591,14 @@ def work_one(arg):
          "rows=%s" % min(len(case["rows"]) // 5 * 5, 40)]
     if any(it[0] is not None for _, its in case["rows"] for it in its):
         h.append("with-delay")
+    if case.get("index") is not None:
+        h.append("df-index-not-default")
+    if case.get("ns"):
+        h.append("namespaced-schema")
+    if any(len(it) > 4 for _, its in case["rows"] for it in its):
+        h.append("schema-unit-spelling")
+    if case.get("queries"):
+        h.append("consumer-history")
     if "exn" in r:
         h.append("impl-" + r["exn"])
     out = {"bad": [(v["clause"], v["detail"]) for v in probe.violations], "hist": h, "diffs": None, "skipped": 0}
@@ -540,6 +648,21 @@ CORPUS = [
     # equal-onset rows that mark the same name (not a valid file): stable order = file order
     mk([[0, [[None, "N", 1, 0]]], [0, [[None, "F", 1, 0]]], [0, [[None, "N", 1, 2]]], [8, [[None, "F", 1, 0]]]]),
     mk([[0, [[8, "N", 1, 0]]], [8, [[None, "F", 1, 0]]], [16, []]]),
+    # DataFrame row labels that are not 0..n-1 (dropped rows, offset, shuffled), with Delay groups
+    mk([[0, [[None, "P", 0, 0]]], [8, [[None, "P", 1, 0], [4, "N", 1, 0]]], [16, [[None, "P", 2, 0]]],
+        [24, [[2, "U", 8, 0]]], [32, []], [40, []]], index=[0, 2, 3, 4, 5, 6]),
+    mk([[0, [[12, "N", 1, 0]]], [8, [[8, "N", 2, 2]]], [16, [[16, "F", 1, 0]]], [40, [[None, "F", 2, 0]]]],
+       mode=1, index=[3, 1, 0, 2]),
+    # unit spellings: SI symbol modifiers in both letter cases, names, plurals (factor from the schema file)
+    mk([[0, [[None, "U", 8 * 10 ** 7, 0, {"d": ["Ms", "1"]}], [None, "U", 8, 0, {"d": ["ms", "1000"]}]]],
+        [8, [[None, "U", 8 * 10 ** 4, 0, {"d": ["Ps", "0.000000000001"]}]]], [16, []], [24, []]]),
+    mk([[0, [[24, "N", 1, 0, {"l": ["ks", "0.003"]}], [None, "U", 16, 0, {"d": ["Seconds", "2"]}]]],
+        [8, [[None, "U", 480, 0, {"d": ["minutes", "1"]}]]], [16, []], [32, [[None, "F", 1, 0]]]]),
+    # the single schema loaded under a namespace, every tag written with the prefix
+    mk([[0, [[None, "N", 1, 0], [None, "P", 0, 0]]], [8, [[None, "U", 16, 0], [8, "N", 2, 2]]],
+        [16, [[None, "F", 1, 0]]], [24, [[None, "P", 8, 0]]]], ns="ts:"),
+    mk([[0, [[None, "N", 5, 2]]], [8, [[None, "P", 9, 0]]], [16, [[None, "F", 5, 0]]]], mode=1, ns="ts:",
+       queries=[["U", 1], ["U", 0], ["T", 0, 1, 0]]),
     # consumer histories on one manager: filtered before plain, plain before filtered, repeated
     mk([[0, [[None, "P", 0, 0], [None, "N", 5, 0]]], [8, [[None, "P", 8, 0], [None, "P", 10, 0]]],
         [16, [[None, "P", 9, 0], [None, "N", 6, 0x62]]], [24, [[None, "F", 5, 0], [None, "U", 16, 0x80]]],
@@ -550,13 +673,13 @@ CORPUS = [
 ]
 
 
-def gen_valid(rng, size, mode=None, maxgap=3, names=(1, 2, 3, 4, 5, 6), p_delay=0.25, samepoint=False, hub=False):
+def gen_valid(rng, size, mode=None, maxgap=3, names=(1, 2, 3, 4, 5, 6), p_delay=0.25, samepoint=False, hub=False, p_units=0.3):
     """A valid history built on the time axis, then distributed over file rows."""
     ntp = rng.randint(1, size)
     t, times = rng.choice([0, 0, 4, 8]), []
     for _ in range(ntp):
         times.append(t)
-        t += rng.choice([1, 2, 4, 8, 8, 8 * maxgap, 3, 16])
+        t += rng.choice([1, 2, 4, 8, 8, 8 * maxgap, 3, 16]) if rng.random() > 0.04 else 8 * 10 ** rng.randint(1, 7)
     virtual = {t for t in times[1:] if rng.random() < 0.12}   # time points reached only by Delay-shifted groups
     open_ = set()
     placed = []        # (time, item without delay)
@@ -582,7 +705,13 @@ def gen_valid(rng, size, mode=None, maxgap=3, names=(1, 2, 3, 4, 5, 6), p_delay=
                 placed.append((t, [None, "F", a, sp]))
             elif x < 0.75:
                 d = rng.choice([1, 2, 4, 8, 8, 12, 16, 24, 40, 8 * maxgap, rng.randint(1, 64)])
-                placed.append((t, [None, "U", d, sp]))
+                it = [None, "U", d, sp]
+                if rng.random() < p_units:       # any unit spelling the schema allows for a time value
+                    by_k()
+                    u = rng.choice(UNITS)
+                    d, txt = rng.choice(unit_table()[u])
+                    it = [None, "U", d, sp, {"d": [u, txt]}]
+                placed.append((t, it))
             else:
                 placed.append((t, [None, "P", rng.randrange(len(PLAIN)), sp]))
         if samepoint and t not in virtual and rng.random() < 0.3:
@@ -593,7 +722,7 @@ def gen_valid(rng, size, mode=None, maxgap=3, names=(1, 2, 3, 4, 5, 6), p_delay=
                 if a not in open_ and ks[0] == "F":
                     ks[0] = "N"
                 for k in ks:
-                    placed.append((t, [None, k, a, rng.randrange(256), "same"]))
+                    placed.append((t, [None, k, a, rng.randrange(256)]))
                     (open_.add if k == "N" else open_.discard)(a)
     # rows: every time point has 1..3 file rows with some probability; items may be written in an earlier row
     row_times = []
@@ -602,19 +731,54 @@ def gen_valid(rng, size, mode=None, maxgap=3, names=(1, 2, 3, 4, 5, 6), p_delay=
             row_times += [t] * rng.choice([1, 1, 1, 1, 2, 2, 3])
     rows = [[t, []] for t in row_times]
     for t, it in placed:
-        it = it[:4]
         earlier = [i for i, (rt, _) in enumerate(rows) if rt < t]
         if earlier and (t in virtual or rng.random() < p_delay):
             # hub: most delayed groups are written in the FIRST row, so one row holds several Delay groups
             i = earlier[0] if (hub and rng.random() < 0.8) else rng.choice(earlier)
             it[0] = t - rows[i][0]
+            if rng.random() < p_units and it[0] in by_k():
+                extra = dict(it[4]) if len(it) > 4 else {}
+                extra["l"] = list(rng.choice(by_k()[it[0]]))
+                it = it[:4] + [extra]
             rows[i][1].append(it)
         else:
             cands = [i for i, (rt, _) in enumerate(rows) if rt == t]
             rows[rng.choice(cands)][1].append(it)
     if mode is None:
         mode = rng.choice([0, 0, 0, 1, 1, 2])
-    return mk(rows, mode=mode, blank=rng.random() < 0.2)
+    kw = {}
+    if mode != 2 and rng.random() < 0.3:
+        # the DataFrame reaches TabularInput with row labels other than 0..n-1 (rows dropped / offset / shuffled)
+        n = len(rows)
+        kind = rng.randrange(4)
+        if kind == 0:
+            kw["index"] = sorted(rng.sample(range(3 * n + 2), n))
+        elif kind == 1:
+            off = rng.choice([1, 5, 100, -3])
+            kw["index"] = [off + i for i in range(n)]
+        elif kind == 2:
+            kw["index"] = rng.sample(range(n), n)
+        else:
+            kw["index"] = rng.sample(range(-n, 2 * n), n)
+    if rng.random() < 0.2:
+        kw["ns"] = "ts:"                 # the single schema is loaded under a namespace, all tags carry the prefix
+    return mk(rows, mode=mode, blank=rng.random() < 0.2, **kw)
+
+
+UNITS = None
+_BY_K = None
+
+
+def by_k():
+    """{k: [(unit spelling, value text)]} -- the unit table by length."""
+    global _BY_K, UNITS
+    if _BY_K is None:
+        _BY_K = {}
+        for u, l in unit_table().items():
+            for k, txt in l:
+                _BY_K.setdefault(k, []).append((u, txt))
+        UNITS = sorted(unit_table())
+    return _BY_K
 
 
 def gen_queries(rng):
@@ -691,6 +855,7 @@ def nontrivial(case):
 def run(tier, seed, res, model_ok=True, proof_ok=True):
     rng = random.Random(seed)
     quick = tier == "quick"
+    by_k()
     cases = [dict(c) for c in CORPUS]
     exh = gen_exhaustive(tier)
     n_exh_full = len(exh)
@@ -732,7 +897,8 @@ def run(tier, seed, res, model_ok=True, proof_ok=True):
         for n, c in enumerate(cases):
             c["n"] = n
             c["tmp"] = tmp
-        env()      # import hed and load the schema once, before the Pool forks
+        env()      # import hed and load the schemas once, before the Pool forks
+        env("ts:")
         with Pool(int(C.JOBS)) as pool:
             outs = pool.map(work_one, list(zip(cases, mods, idmaps)), chunksize=100)
     finally:
@@ -764,7 +930,10 @@ def run(tier, seed, res, model_ok=True, proof_ok=True):
                 "plain, Delay-shifted Onset/Offset/Duration/plain) with 2 rows x <=2 items and 3 rows x <=1 item and "
                 "onset gaps {0,1/2 s,1 s}" + ("" if quick else " and 4 rows x <=1 item") +
                 f" + {nval} random valid histories (1-80 time points, 4 names, equal-onset rows, 25% delayed groups, "
-                f"every 4th with 60% delayed groups written mostly in one row, unconvertible Delay units, 3 input modes) + {nval // 6} malformed (unordered, n/a onset, stray Offset); non-trivial = valid, "
+                f"every 4th with 60% delayed groups written mostly in one row, unconvertible Delay units, 3 input modes, "
+                f"30% of Duration/Delay values in one of {len(UNITS)} unit spellings of the schema file (all SI prefixes, "
+                f"names, plurals, letter cases), 30% of the DataFrames with non-default row labels, 20% under a schema "
+                f"namespace, 20% with a consumer history) + {nval // 6} malformed (unordered, n/a onset, stray Offset); non-trivial = valid, "
                 ">= 2 rows and at least one Onset or Duration process",
         "samples": [cases[0]["rows"], cases[min(len(CORPUS) + 4321, len(cases) - 1)]["rows"],
                     cases[len(cases) * 9 // 10]["rows"], cases[-1]["rows"]],
